@@ -394,7 +394,10 @@ Fixpoint skel_step_loop (nl : list nat) (i : nat) (empty : bool) (ks : list skin
       else [k] ++ (if mem_nat i nl then [KEmpty] else []) ++ skel_step_loop nl (S i) false t
   end.
 Definition skel_step (fixed : bool) (ks : list skind) : list skind :=
-  skel_step_loop (nl_after fixed ks) 0 false ks.
+  match ks with
+  | [] => [KEmpty]          (* formatProgram writes "\n" for a program without statements *)
+  | _ => skel_step_loop (nl_after fixed ks) 0 false ks
+  end.
 
 (* ---------- tokens of the tree, in source order (specification side of C06) ---------- *)
 Definition ty_tokens (t : fty) : list str :=
